@@ -427,6 +427,7 @@ func TestVerif(t *testing.T) {
 	// ---- group F: size classes; group G: expansion growth ----
 	h.bigInputs()
 	h.expansionGrowth()
+	h.amplification()
 
 	// ---- group C: shipped configuration files ----
 	h.shipped(t)
